@@ -292,8 +292,8 @@ def _c11(tier, seed):
 
 def _c16(tier, seed):
     q = tier == "quick"
-    runs = ["H_C16_message(%d,%d)" % (k, w) for k in range(19) for w in ((1,) if q else (0, 1))] + ["H_C16_repeated()", "H_C16_reconnect()"] + ["H_C16_names_client_message(%d)" % k for k in range(8)]
-    return [dict(name="loop", pkg=".", harness=NET_HARNESS + ["harness/root/c16.go"], runs=runs, solver="z3", walllimit=600, timeout=3000, replay="schedule",
+    runs = ["H_C16_message(%d,%d)" % (k, w) for k in range(19) for w in ((1,) if q else (0, 1))] + ["H_C16_repeated()", "H_C16_reconnect()"] + ["H_C16_names_client_message(%d)" % k for k in range(8)] + ["H_C16_after_key_exchange(%d)" % k for k in range(4)]
+    return [dict(name="loop", pkg=".", harness=NET_HARNESS + ["harness/root/c16.go", "harness/root/c16k.go"], runs=runs, solver="z3", walllimit=600, timeout=3000, replay="schedule",
                  crash_tags=["process-survives"], validate_runs=["H_C16_message(0,1)", "H_C16_message(2,1)", "H_C16_message(9,1)"], veclen=100)]
 
 def _c18(tier, seed):
